@@ -694,7 +694,9 @@ attrsLoop:
 					if htmlAttr.Key == "href" {
 						hrefFound = true
 
-						u, err := url.Parse(htmlAttr.Val)
+						// a browser strips leading and trailing C0 control
+						// or space characters before it parses the value
+						u, err := url.Parse(strings.TrimFunc(htmlAttr.Val, func(r rune) bool { return r <= 0x20 }))
 						if err != nil {
 							// only possible when URLs are not required
 							// to parse: whether the link has a host is
